@@ -75,6 +75,7 @@ def err_variants(t):
 def run(chk, tier):
     prog, info = common.program("all")
     common.note_extraction(chk, info, prog)
+    common.vacuity(chk, ['R-TEMPLATE', 'R-PANIC'])
     wit = common.witness()
     chk.explanation = ("Only the client-side discipline is decided (value numbering of the async bodies under the await model); fidelity for all bucket contents, XML "
                        "escaping and HTTP behaviour belong to reqwest/xml-rs and a live server and are NOT decided. Decided: request keys, prefixes and URLs are the "
